@@ -248,6 +248,83 @@ def _closure_counter(facts, rep, u, fl, cb, ub, loops):
     rep.ob("C04.U", "counter|id-operand", True, "the id operand of update_prf_id is the captured counter `%s`" % name, cb.loc(ub))
 
 
+def _struct_counter(facts, rep, u, m, ub):
+    """counter discipline when the counter is a field of a small struct and the renumbering a method of it
+    (`struct PrfIdCounter { last_id }`, `fn renumber(&mut self, op)`): inside the method the id operand is `self.field`, the
+    only write to the field is `+= 1` and it dominates update_prf_id; elsewhere in the crate the field is written only by a
+    constructor that stores a constant; the object is constructed outside all loops of uniquify_prf_id (one counter for all
+    graphs) and the method is reached from a loop"""
+    from ..fields import field_accesses
+    t = m.term(ub)
+    idop = t["args"][1]
+    if idop[0] == "k":
+        rep.fail("C04.U", "counter", "update_prf_id is given the constant %s" % idop[2], m.loc(ub))
+        return
+    mfl = Flow(facts, m)
+    ors = mfl.origins(idop, (ub, None))
+    fields_ = {o[2][0] for o in ors if o[0] == "param" and o[1] == 1 and o[2]}
+    if len(fields_) != 1 or any(o[0] not in ("param", "bin") for o in ors):
+        rep._unjudged("C04.U", "counter", "update_prf_id inside %s is not given a field of self" % m.id.split("::")[-1])
+        return
+    fname = fields_.pop()
+    adt = m.local_adt(1) if hasattr(m, "local_adt") else None
+    incs, others = [], []
+    for bb, j, place, rv in m.assigns():
+        if m.is_cleanup(bb) or place[0] != 1 or not any(field_name(p_) == fname for p_ in place[1:]):
+            continue
+        good = False
+        if rv[0] == "use" and rv[1][0] != "k" and len(rv[1][1]) == 2:
+            tds = mfl.defs_of.get(rv[1][1][0], [])
+            if len(tds) == 1:
+                _, tb_, tj = mfl.defs[tds[0]]
+                if tj is not None:
+                    trv = m.stmts(tb_)[tj][2]
+                    if trv[0] == "bin" and trv[1] in ("AddWithOverflow", "Add", "AddUnchecked") and trv[3][0] == "k" and trv[3][4] == "1" \
+                            and trv[2][0] != "k" and trv[2][1][0] == 1 and any(field_name(p_) == fname for p_ in trv[2][1][1:]):
+                        good = True
+        (incs if good else others).append(bb)
+    # writes to the field anywhere else in the crate: only constant initialisation in an aggregate (constructor)
+    ext_writes, ctor_ok = [], False
+    for n_, ob in facts.bodies.items():
+        if ob.crate != m.crate or ob is m or ob.file != m.file:
+            continue
+        for (a_, f_, k_) in field_accesses(facts, ob):
+            if f_ == fname and k_ == "w" and (adt is None or a_ == adt):
+                ext_writes.append(n_)
+        for bb, j, place, rv in ob.assigns():
+            if rv[0] == "agg" and rv[1].get("adt") == adt and fname in (rv[1].get("fields") or []):
+                op_ = rv[2][rv[1]["fields"].index(fname)]
+                if op_[0] == "k":
+                    ctor_ok = True
+                else:
+                    ext_writes.append(n_ + " (non-constant initialiser)")
+    name = "%s.%s" % ((adt or "?").split("::")[-1], fname)
+    rep.ob("C04.U", "counter|single-init", ctor_ok and not ext_writes,
+           "counter `%s` is initialised with a constant by its constructor and written nowhere else outside %s" % (name, m.id.split("::")[-1])
+           if ctor_ok and not ext_writes else "counter `%s` is also written in %s" % (name, sorted(set(ext_writes))), m.loc())
+    rep.ob("C04.U", "counter|only-increments", not others and len(incs) >= 1,
+           "all writes of `%s` in %s are `+= 1` (%d increment(s), other writes at bb%s)" % (name, m.id.split("::")[-1], len(incs), others), m.loc())
+    ok = any(C.dominates(m, i, ub) for i in incs)
+    # one object for the whole context: constructed in uniquify_prf_id outside its loops; the method is called from a loop
+    loops_u = C.loops(u)
+    ctor_calls = [bb for bb, t2 in u.calls() if not u.is_cleanup(bb) and u.local_ty(t2["dest"][0] if t2.get("dest") else 0) == adt]
+    ctor_outside = bool(ctor_calls) and not any(bb in blocks for bb in ctor_calls for _, blocks in loops_u)
+    in_loop_call = False
+    for n_, ob in facts.bodies.items():
+        if ob.file != m.file or ob.crate != m.crate:
+            continue
+        lo = C.loops(ob)
+        for bb, t2 in ob.calls():
+            if callee_name(t2) == m.id and any(bb in blocks for _, blocks in lo):
+                in_loop_call = True
+    rep.ob("C04.U", "counter|increment-dominates-use", ok and ctor_outside and in_loop_call,
+           "in %s an increment of `%s` dominates update_prf_id; one counter object is created outside the loops of uniquify_prf_id "
+           "and the method is called per node" % (m.id.split("::")[-1], name) if ok and ctor_outside and in_loop_call else
+           "counter `%s`: increment dominates use=%s, single object outside loops=%s, called per node=%s: two PRF nodes can receive "
+           "the same counter" % (name, ok, ctor_outside, in_loop_call), m.loc(ub))
+    rep.ob("C04.U", "counter|id-operand", True, "the id operand of update_prf_id is the counter field `%s`" % name, m.loc(ub))
+
+
 def uniquify(facts, rep, tb, vs, vidx):
     u = facts.body("mpc::mpc_compiler::uniquify_prf_id")
     if not rep.anchor("C04.U", "mpc::mpc_compiler::uniquify_prf_id", u):
@@ -257,8 +334,31 @@ def uniquify(facts, rep, tb, vs, vidx):
     cl_upd = [(cb, bb) for cb in facts.closures_of(u.id) for bb, t in cb.calls()
               if callee_name(t) == "graphs::Operation::update_prf_id" and not cb.is_cleanup(bb)]
     adds = [bb for bb, t in u.calls() if callee_name(t) == "graphs::Graph::add_node_with_type"]
-    if not (rep.anchor("C04.U", "update_prf_id call in uniquify_prf_id", upd or cl_upd)
-            and rep.anchor("C04.U", "add_node_with_type call in uniquify_prf_id", adds)):
+    skip_copy = False
+    if not upd and not cl_upd:
+        # renumbering in a method of a counter struct, reached from uniquify_prf_id through same-file helpers
+        from .common import same_file_family
+        seen_ = {u.id}
+        work_ = [u]
+        meth = []
+        while work_:
+            x_ = work_.pop()
+            for _, t_ in x_.calls():
+                h_ = facts.bodies.get(callee_name(t_) or "")
+                if h_ is None or h_.id in seen_ or h_.kind == "closure" or h_.file != u.file:
+                    continue
+                seen_.add(h_.id)
+                ups_ = [bb for bb, t2 in h_.calls() if callee_name(t2) == "graphs::Operation::update_prf_id" and not h_.is_cleanup(bb)]
+                if ups_ and h_.argc >= 1 and h_.local_ty(1).startswith("&mut "):
+                    meth.append((h_, ups_[0]))
+                else:
+                    work_.append(h_)
+        if len(meth) == 1:
+            _struct_counter(facts, rep, u, meth[0][0], meth[0][1])
+            rep._unjudged("C04.U", "copy", "the per-variant copy clause is not evaluated when the node loop lives in a helper of uniquify_prf_id")
+            skip_copy = True
+    if not skip_copy and not (rep.anchor("C04.U", "update_prf_id call in uniquify_prf_id", upd or cl_upd)
+                              and rep.anchor("C04.U", "add_node_with_type call in uniquify_prf_id", adds)):
         return
     loops = C.loops(u)
     for cb, cbb in cl_upd:
@@ -325,7 +425,7 @@ def uniquify(facts, rep, tb, vs, vidx):
         rep.ob("C04.U", "counter|id-operand", fl.root_of(idop[1][0]) == ctr, "the id operand of update_prf_id is the counter `%s`" % name, u.loc(ub))
     # per-variant: what operation reaches add_node_with_type
     prf = [n for n in tb["is_prf_operation"] if is_true(tb["is_prf_operation"][n])]
-    for idx, name in vs:
+    for idx, name in (vs if not skip_copy else []):
         it = V.Interp(facts, idx)
         res = it.run(u)
         for ab in adds:
